@@ -22,6 +22,8 @@ pub mod c06;
 pub mod c07;
 pub mod c08;
 #[cfg(feature = "sodium")]
+pub mod c09;
+#[cfg(feature = "sodium")]
 pub mod c12;
 #[cfg(feature = "sodium")]
 pub mod c13;
@@ -44,6 +46,8 @@ pub fn dispatch(name: &str, cx: &mut Ctx) -> bool {
         #[cfg(feature = "sodium")]
         "c07" => c07::run(cx),
         "c08" => c08::run(cx),
+        #[cfg(feature = "sodium")]
+        "c09" => c09::run(cx),
         #[cfg(feature = "sodium")]
         "c12" => c12::run(cx),
         #[cfg(feature = "sodium")]
